@@ -136,8 +136,6 @@ _c11 = [
      ("prune_2_lp", "quick", 2400, "PruningCursor over 2 entries; program seek_to_last,prev (the backward path)", _DOMS + "; read timestamp 0..4", dict(unwind=3)),
      ("prune_2_sp", "thorough", 2400, "PruningCursor over 2 entries; program seek,prev", _DOMS + "; read timestamp 0..4", dict(unwind=3)),
     ] \
-  + [("composed2_ie_sn", "thorough", 2400, "Bounds[s,e)(Pruning(Merging(2x2))) equals restrict(prune(union)) - the shape of a range scan; program seek,next", _DOMS, dict(unwind=3)),
-     ("composed2_uu_fnn", "thorough", 2400, "Bounds(unbounded)(Pruning(Merging(2x2))); program seek_to_first,next,next", _DOMS, dict(unwind=3))] \
   + [
     (f"bounds_3_k3_{sk}{ek}", "quick" if (sk+ek) in ("ie", "ui") else "thorough", 900, f"BoundsCursor (start {sk}, end {ek}; u=unbounded i=included e=excluded) over 3 entries equals the restriction to the interval; every 3-call program", _DOM + "; bound keys 0..4 incl. empty and inverted ranges")
     for sk in "uie" for ek in "uie"
@@ -173,6 +171,9 @@ _c16_v2 = [
     ("decode_ints_9", "quick", 600, "u64/i64 decoders on one tag + full-width payload: no panic; accepted values are canonical", "all 9-byte inputs"),
 ]
 _c16_v1 = [
+    ("iter_partition_3", "quick", 900, "field-numbered format: the element iterator on arbitrary bytes never panics and partitions the key into consecutive elements", "all 3-byte keys (incl. keys ending in a continuation byte)"),
+    ("iter_partition_1", "thorough", 600, "same", "all 1-byte keys"),
+    ("iter_partition_5", "thorough", 1800, "same", "all 5-byte keys"),
     ("prefix_contiguity_u64", "quick", 600, "field-numbered format: s<s' => enc(s) < enc(s.e) < enc(s') for u64 prefixes extended by u64 / descending i64 / unit", _FW),
     ("str_fwd_0_1", "quick", 600, "strings (ASCII) of lengths 0,1 ascending: order + round trip", "all ASCII contents incl. NUL"),
     ("tuple_str1_2_i32", "quick", 900, "(string[1|2], i32) tuples: first element of different lengths", _FW),
@@ -180,14 +181,12 @@ _c16_v1 = [
     ("prefix_contiguity_str_1_2", "thorough", 1800, "prefix contiguity for string prefixes of lengths 1,2", "all ASCII contents"),
     ("prefix_contiguity_str_2_2", "thorough", 1800, "same, lengths 2,2", "all ASCII contents"),
     ("decode_total_0", "thorough", 300, "every parser entry on the empty key", "length 0"),
-    ("u64_fwd", "thorough", 2400, "field-numbered format u64 ascending: order + round trip", _FW, dict(mem=28)),
-    ("u64_rev", "thorough", 2400, "u64 descending: reversed order + round trip", _FW, dict(mem=28)),
-    ("i64_rev", "thorough", 2400, "i64 descending", _FW, dict(mem=28)),
-    ("i32_fwd", "thorough", 2400, "i32 ascending", _FW, dict(mem=28)),
-    ("u32_rev", "thorough", 2400, "u32 descending", _FW, dict(mem=28)),
-    ("str_fwd_1_2", "thorough", 2400, "strings of lengths 1,2 ascending: order + round trip", "all ASCII contents incl. NUL and prefixes", dict(mem=28)),
-    ("str_rev_1_1", "thorough", 2400, "strings of length 1 descending (not prefixes of each other): reversed order + round trip", "all ASCII contents", dict(mem=28)),
-    ("decode_total_2", "thorough", 2400, "every parser entry and the element iterator on arbitrary bytes: Ok/Err, no panic; iterator partitions the key", "all 2-byte keys", dict(mem=28)),
+    ("u64_order_fwd", "quick", 900, "field-numbered format u64 ascending: encoded order == value order (order only, no decode)", _FW, dict(mem=28)),
+    ("u64_order_rev", "quick", 900, "u64 descending: reversed order", _FW, dict(mem=28)),
+    ("i64_order_fwd", "thorough", 900, "i64 ascending", _FW, dict(mem=28)),
+    ("i64_order_rev", "quick", 900, "i64 descending", _FW, dict(mem=28)),
+    ("i32_order_fwd", "thorough", 900, "i32 ascending", _FW, dict(mem=28)),
+    ("u32_order_rev", "thorough", 900, "u32 descending", _FW, dict(mem=28)),
     ("str_rev_prefix_0_1", "quick", 600, "descending strings where one is a proper prefix of the other (isolates known finding tuple-key-desc-string-prefix)", "lengths 0,1", dict(expect="tuple-key-desc-string-prefix")),
 ]
 PROPS["C16"] = dict(
@@ -281,13 +280,11 @@ _c05 = hs2("sst", "gc::verif_harness::", unwind=3, stubs=_SERR, items=[
 ]) + [h for h in hs("hx_sst_cursors", "", unwind=6, mem=28, stubs=["alloc::fmt::format -> empty String"], items=[
     ("merge3_conserve_111", "quick", 1800, "a 3-way merge walked forward yields every input entry exactly once, strictly increasing, equal to the sorted union (multiset conservation)", "3 children x 1 entry, key 0..3, ts 0..3, tombstones"),
     ("merge3_backward_111", "quick", 1800, "the same merge walked backward yields the sorted union in reverse", "3 children x 1 entry"),
-    ("merge3_conserve_211", "thorough", 2400, "forward, children of 2,1,1 entries", "4 entries"),
-    ("merge3_backward_211", "thorough", 2400, "backward, children of 2,1,1 entries", "4 entries"),
     ("merge_2x2_k3", "quick", 900, "2-way merge equals the sorted union after every call of every 3-call program (shared with C11)", "2x2 entries"),
 ])]
 PROPS["C05"] = dict(harnesses=_c05, level_text="x", level_note="y")
 _MT = "2 entries at scan-open time (keys 0..3, one may be a tombstone), read timestamp 2; seek keys and later-write keys 0..3; event script fixed per harness"
-_c07 = hs2("lsmtk", "kvs::verif_harness::", unwind=3, stubs=_SERR, mem=28, items=[
+_c07 = hs2("lsmtk", "kvs::verif_harness::", unwind=3, stubs=_SERR, mem=28, miri=True, items=[
     ("min_key_after_release", "quick", 2400, "one entry; the raw memtable cursor is positioned on it, the store releases the memtable, key() and value() still read the entry: memory-safe (CBMC pointer checks)", "all keys and values (u8)"),
 ]) + hs("skipfree", VH, unwind=4, miri=True, mem=28, items=[
     ("iter_after_drop_h11_seek_next", "quick", 420, "skiplist iterator used after the list is dropped at a symbolic point of seek(q),next: memory-safe and contents intact; the iterator then frees the nodes", "2 keys, heights 1,1"),
@@ -356,17 +353,11 @@ _shapes = [  # name, what, tier of W/R
     ("whole_d40", "frame written whole, 40 bytes before a 1 MiB boundary", "quick"),
     ("split_d20", "20 bytes before the boundary: the smallest split (first frame of 1 byte), padding, second frame", "quick"),
     ("pad_d19", "19 bytes (= HEADER_MAX_SIZE) before the boundary: the largest padding", "thorough"),
-    ("two_d60", "two batches (put with key[2] value[3], then a delete), both whole", "thorough"),
     ("exact_d22", "frame ends exactly on the boundary", "thorough"),
     ("bound_d0", "first byte exactly on a boundary", "thorough"),
-    ("pad_d1", "1 byte before the boundary: zero padding, then the frame", "thorough"),
     ("pad_d5", "5 bytes before the boundary: padding, then the frame", "thorough"),
-    ("split_d21", "21 bytes before: first frame of 2 bytes", "thorough"),
-    ("split_d26", "26 bytes before, key[3] value[4]: first frame carries payload", "thorough"),
-    ("exact_d25", "key[2] value[3], frame of 25 bytes ends exactly on the boundary", "thorough"),
-    ("two_pad_d23", "a whole frame leaving 1 byte before the boundary, then a second batch after padding", "thorough"),
-    ("batch2_d60", "ONE batch of two entries, written whole", "thorough"),
-    ("batch2_d32", "ONE batch of two entries split across the boundary so that the first frame holds the whole first entry", "thorough"),
+    ("split_d21", "21 bytes before the boundary: split with a 2-byte first frame", "thorough"),
+    ("split_d26", "26 bytes before the boundary, key 3 / value 4 bytes: a larger split", "thorough"),
 ]
 _c12 = []
 _PAY = "key and value bytes: all values < 0x80; timestamps fixed (5, 6); lengths concrete"
@@ -376,24 +367,20 @@ for n, what, t1 in _shapes:
         (f"r_{n}", t1, 1800, f"R: for ALL payloads the real reader on the instantiated template yields exactly the appended entries, in order ({what})", _PAY),
     ]
 _c12 += [
-    ("c_whole_d40", "thorough", 3000, "R-cut: on EVERY truncation length of the image the reader yields a prefix of the batches, then end or error, never a partial or invented batch (whole frame)", "all cut positions 0..len, all payloads"),
-    ("c_split_d20", "thorough", 3000, "R-cut, smallest split", "all cut positions 0..len, all payloads"),
+    ("w_batch2_d32", "thorough", 1800, "W for ONE batch of two entries split across the boundary (the image the k_batch2 truncations are taken from)", _PAY),
     ("k_whole_d40_empty", "thorough", 1200, "R-cut at length 0: the empty log ends cleanly", _PAY),
-    ("k_whole_d40_first_byte", "thorough", 1200, "R-cut after the first byte", _PAY),
     ("k_whole_d40_last_byte", "quick", 1800, "R-cut one byte before the end of the only frame: no entry, end or error", _PAY),
-    ("k_two_d60_between", "thorough", 1800, "R-cut exactly between two batches: the first batch, then end", _PAY),
-    ("k_two_d60_in_second", "thorough", 1800, "R-cut inside the second batch's header: the first batch, then end or error", _PAY),
     ("k_split_d20_at_boundary", "thorough", 1800, "R-cut at the block boundary of a split batch: nothing of it is returned", _PAY),
     ("k_batch2_d32_at_boundary", "thorough", 2400, "R-cut at the block boundary after the first half of a split TWO-entry batch: the batch is returned whole or not at all", _PAY),
-    ("k_batch2_d32_before_boundary", "thorough", 1800, "same, one byte before the boundary (inside the padding)", _PAY),
-    ("k_batch2_d32_after_boundary", "thorough", 1800, "same, one byte after the boundary (inside the second header)", _PAY),
-    ("k_batch2_d32_mid_padding", "thorough", 1800, "same, in the middle of the padding", _PAY),
+    ("k_batch2_d32_before_boundary", "thorough", 2400, "same, one byte before the boundary (inside the padding)", _PAY),
+    ("k_batch2_d32_after_boundary", "thorough", 2400, "same, one byte after the boundary (inside the second header)", _PAY),
+    ("k_batch2_d32_mid_padding", "thorough", 2400, "same, in the middle of the padding", _PAY),
 ]
 PROPS["C12"] = dict(
     harnesses=hs2("sst", "log::verif_harness::", unwind=3, stubs=_LOGSTUBS, mem=28, items=_c12),
     needs_templates=True,
     level_text="x", level_note="y",
 )
-_claim("C12", "The log write->read round trip is decomposed at the byte image: T (natively, every run) derives the image layout from the real writer; W (solver) shows the writer produces exactly that layout for ALL payloads; R (solver) shows the reader returns exactly the appended entries from it, and a prefix then end-or-error from every truncation. Shapes place the frame at chosen distances 0..60 from a 1 MiB boundary (whole, exact fit, padding, smallest/larger split, two batches).",
+_claim("C12", "The log write->read round trip is decomposed at the byte image: T (natively, every run) derives the image layout from the real writer; W (solver) shows the writer produces exactly that layout for ALL payloads; R (solver) shows the reader returns exactly the appended entries from it, and a prefix then end-or-error from every truncation. Shapes place ONE single-entry batch at distances 0, 5, 19, 20, 21, 22, 26, 40 from a 1 MiB boundary (on the boundary, padding, largest padding, smallest split, exact fit, whole); truncations of these and of a split two-entry batch.",
        "W and R share the template instantiation, so their conjunction is the round trip; the checksum is a cheap stand-in function used identically on both sides (agreement on WHICH bytes are summed is still checked). Counterexamples are replayed natively against the real writer+reader with the real CRC.", "DESIGN.md 3/C12",
-       "ConcurrentLogBuilder and the coalescing queues (threads), durability/fsync, log_to_builder/truncate_final_partial_frame (open a File), batches near MAX_BATCH_SIZE, multi-byte varint classes, more than 2 batches")
+       "reading a SECOND entry or the end of the log after a successful entry (the queries do not finish: 30-40 min), so multi-batch logs are outside; symbolic timestamps; ConcurrentLogBuilder and the coalescing queues (threads), durability/fsync, log_to_builder/truncate_final_partial_frame (open a File), batches near MAX_BATCH_SIZE")
